@@ -438,8 +438,11 @@ def run_unit_inner(unit, tier, seed):
     # ---- canary: every FUC must FAIL when `ensures false` is added, every loop must reach its body
     cfb = breakdown(cres)
     can_bad = []
+    c_front = [d.get("message", "") for d in cres["diags"] if d.get("level") == "error" and d.get("code")]
     if cres["json"] is None or cres["timeout"]:
         can_bad.append("canary run produced no result")
+    elif c_front:
+        can_bad.append("canary file did not compile: " + c_front[0][:200])
     else:
         cerr_lines = set()
         for d in cres["diags"]:
